@@ -177,6 +177,44 @@ pub fn lock_worker(dir: &str, n: usize, k: usize, signal: i32) -> ! {
     std::process::exit(42)
 }
 
+/// `vcrash --tmp-churn-worker <dir> <churn> <style> <signal>`: three registered tempfiles of different kinds are created FIRST and kept,
+/// then `churn` short-lived tempfiles come and go (style 0: dropped, 1: persisted, 2: every second one kept alive), then the signal arrives.
+pub fn churn_worker(dir: &str, churn: usize, style: usize, signal: i32) -> ! {
+    use gix_tempfile::{AutoRemove, ContainingDirectory};
+    use std::io::Write;
+    gix_tempfile::signal::setup(gix_tempfile::signal::handler::Mode::DeleteTempfilesOnTerminationAndRestoreDefaultBehaviour);
+    let dir = PathBuf::from(dir);
+    let mut w = gix_tempfile::writable_at(dir.join("old-writable.lock"), ContainingDirectory::Exists, AutoRemove::Tempfile).expect("writable");
+    w.write_all(b"x").expect("write");
+    let m = gix_tempfile::mark_at(dir.join("old-marker.lock"), ContainingDirectory::Exists, AutoRemove::Tempfile).expect("mark");
+    let sub = dir.join("old-dir");
+    std::fs::create_dir(&sub).expect("mkdir");
+    let n = gix_tempfile::new(&sub, ContainingDirectory::Exists, AutoRemove::Tempfile).expect("new");
+    let churn_dir = dir.join("churn");
+    std::fs::create_dir(&churn_dir).expect("mkdir");
+    let mut kept = Vec::new();
+    for i in 0..churn {
+        let t = gix_tempfile::mark_at(churn_dir.join(format!("c{i}.tmp")), ContainingDirectory::Exists, AutoRemove::Tempfile).expect("churn");
+        match style {
+            0 => drop(t),
+            1 => {
+                t.persist(churn_dir.join(format!("p{i}"))).expect("persist");
+            }
+            _ => {
+                if i % 2 == 0 {
+                    kept.push(t)
+                } else {
+                    drop(t)
+                }
+            }
+        }
+    }
+    std::fs::write(dir.join("READY"), b"").expect("write");
+    unsafe { libc::raise(signal) };
+    drop((w, m, n, kept));
+    std::process::exit(42)
+}
+
 // ---------------------------------------------------------------------------------------------------------------------
 
 fn exe() -> PathBuf {
@@ -669,6 +707,73 @@ pub fn run(run: &'static Run) {
                 return bad("leak-entry-lock-held", format!("tempfiles {left:?} stay behind: their registry lock was held by another thread when the signal arrived"));
             }
             ok("all-removed")
+        },
+    );
+    // phase 5: tempfiles registered long ago: `churn` younger registry entries come and go before the signal arrives (the handler must
+    // reach every id ever handed out, whatever the distance between the oldest live entry and the newest id)
+    #[derive(Serialize, Deserialize, Hash, Clone, Debug)]
+    struct ChurnCase {
+        churn: usize,
+        style: usize,
+        signal: i32,
+    }
+    let churns: Vec<usize> = if run.quick() {
+        vec![0, 1, 2, 63, 64, 65, 255, 256, 257, 1023, 1024, 1025, 4095, 4096, 4097, 5000]
+    } else {
+        vec![0, 1, 2, 15, 16, 17, 63, 64, 65, 127, 128, 129, 255, 256, 257, 511, 512, 513, 1023, 1024, 1025, 2047, 2048, 2049, 4095, 4096, 4097, 5000, 8191, 8192, 8193, 16384, 32768, 65535, 65536, 65537, 70000]
+    };
+    let churn_cases: Vec<ChurnCase> = if run.is_replay() {
+        Vec::new()
+    } else {
+        churns.iter().flat_map(|&c| signals.iter().flat_map(move |&s| (0..3).map(move |style| ChurnCase { churn: c, style, signal: s }))).collect()
+    };
+    run.sub_with(
+        "old-entries",
+        vkit::Opts::default().chunk(64),
+        |emit| churn_cases.into_iter().for_each(|c| emit(c)),
+        |c: &ChurnCase| -> Verdict {
+            let d = vkit::scratch::Dir::new("c23c");
+            let out = Command::new(exe())
+                .arg("--tmp-churn-worker")
+                .arg(d.path())
+                .arg(c.churn.to_string())
+                .arg(c.style.to_string())
+                .arg(c.signal.to_string())
+                .output()
+                .unwrap_or_else(|e| vkit::machinery!("spawn: {e}"));
+            use std::os::unix::process::ExitStatusExt;
+            if !d.join("READY").exists() {
+                vkit::machinery!("churn worker did not get ready: {:?} {}", out.status, String::from_utf8_lossy(&out.stderr));
+            }
+            if out.status.signal() != Some(c.signal) {
+                return bad("not-terminated", format!("worker ended with {:?} instead of dying from signal {}", out.status, c.signal));
+            }
+            let mut left: Vec<String> = Vec::new();
+            for name in ["old-writable.lock", "old-marker.lock"] {
+                if d.join(name).exists() {
+                    left.push(name.to_string());
+                }
+            }
+            for e in std::fs::read_dir(d.join("old-dir")).unwrap_or_else(|e| vkit::machinery!("read_dir: {e}")).flatten() {
+                left.push(format!("old-dir/{}", e.file_name().to_string_lossy()));
+            }
+            let mut persisted = 0;
+            for e in std::fs::read_dir(d.join("churn")).unwrap_or_else(|e| vkit::machinery!("read_dir: {e}")).flatten() {
+                let n = e.file_name().to_string_lossy().into_owned();
+                if n.starts_with('p') {
+                    persisted += 1;
+                } else {
+                    left.push(format!("churn/{n}"));
+                }
+            }
+            if c.style == 1 && persisted != c.churn {
+                return bad("persisted-removed", format!("{} of {} persisted files exist after the signal", persisted, c.churn));
+            }
+            if !left.is_empty() {
+                left.truncate(6);
+                return bad("old-entry-left", format!("registered tempfiles {left:?} were left behind after signal {} ({} younger entries came and went, style {})", c.signal, c.churn, c.style));
+            }
+            ok(if c.churn >= 4096 { "old-entries-removed:far" } else if c.churn > 0 { "old-entries-removed:near" } else { "old-entries-removed:none-younger" })
         },
     );
     run.require("signals were delivered and cleaned up", run.over_budget() || run.outcome_count("clean-between-operations") + run.outcome_count("clean-during-write") > 0);
